@@ -338,6 +338,28 @@ def count_obligations(prop):
     return total, done, files
 
 
+SOURCE_TIE_NOTES = {}
+
+
+def source_tie(prop):
+    """Regenerate coq/Gen/Src_*.v for `prop` with the Python->Gallina translator (harness/py2coq.py) and add
+    Props/SrcTie_<prop>.v to the property's theorem files.  A broken obligation there (the translated source no longer
+    equals the hand model) is a broken proof of this check.  When the translator REFUSES the source (it left the supported
+    subset) the syntactic tie does not apply: that is recorded in the evidence and the behavioural ties decide alone."""
+    import py2coq
+    name = 'SrcTie_%s' % prop
+    try:
+        files = py2coq.gen_for(prop)
+        if name not in EXTRA_PROPS.setdefault(prop, []):
+            EXTRA_PROPS[prop].append(name)
+        SOURCE_TIE_NOTES[prop] = {'status': 'translated', 'generated': [os.path.relpath(f, VERIF) for f in files]}
+    except py2coq.Unsupported as ex:
+        if name in EXTRA_PROPS.get(prop, []):
+            EXTRA_PROPS[prop].remove(name)
+        SOURCE_TIE_NOTES[prop] = {'status': 'refused: the source left the translator\'s subset; syntactic tie not applied',
+                                  'detail': str(ex)[:500]}
+
+
 def work_dir(prop):
     d = os.path.join(WORK, prop)
     os.makedirs(d, exist_ok=True)
@@ -598,7 +620,6 @@ def main_check(prop, module, argv):
                 'kind': 'proof obligation or model/implementation correspondence no longer checks; no failing input found',
                 'seed': seed, 'tier': args.tier,
                 'proof_broken': proof_broken,
-        'hygiene_findings_outside_this_cone': hyg_elsewhere,
                 'correspondence_disagreements': [{'case': d.case, 'detail': d.detail} for d in res.disagreements[:10]],
                 'errors': res.errors[:10]})
             print('VIOLATION property=%s replay=%s no-failing-input-found' % (prop, path))
@@ -629,6 +650,7 @@ def main_check(prop, module, argv):
                                      for f in open_findings},
         'input_distribution': res.distribution,
         'proof_broken': proof_broken,
+        'source_tie': SOURCE_TIE_NOTES.get(prop),
         'hygiene_findings_outside_this_cone': hyg_elsewhere,
         'harness_errors': res.errors[:5],
         'explanation': getattr(module, 'EXPLANATION', ''),
